@@ -190,11 +190,12 @@ def inventory(plat, c, l, k, flavour, triple=False):
             sx.check(p.device_class == "PUMP" and p.name == D[p.key][0], "inv.pump-class")
         for d in f.blowers + f.lights:
             sx.check(d.device_class == D[d.key][2] and d.name == D[d.key][0], "inv.switch-class")
-        exp_s = [s[0].upper() for s in GeckoConstants.SENSORS if s[1] in acc]
-        exp_bs = [s[0].upper() for s in GeckoConstants.BINARY_SENSORS if s[1] in acc]
+        own = set(spa.config_class.accessors) | set(spa.log_class.accessors)
+        exp_s = [s[0].upper() for s in GeckoConstants.SENSORS if s[1] in own]
+        exp_bs = [s[0].upper() for s in GeckoConstants.BINARY_SENSORS if s[1] in own]
         sx.check([s.key for s in f.sensors] == exp_s, "inv.sensors")
         sx.check([s.key for s in f.binary_sensors] == exp_bs, "inv.binary-sensors")
-        sx.check((f.eco_mode is not None) == ("EconActive" in acc), "inv.eco-mode")
+        sx.check((f.eco_mode is not None) == ("EconActive" in own), "inv.eco-mode")
         devs = [d for d in f.all_automation_devices]
         sx.check(all(d is not None for d in devs), "inv.no-missing-device-in-list",
                  lambda: str([type(d).__name__ for d in devs]))
@@ -232,7 +233,38 @@ def inventory(plat, c, l, k, flavour, triple=False):
     return scenario
 
 
+def rebuilt_structure(sx):
+    """one structure object is given the tables of one pack and later those of another (what the simulator's `load`
+    and a reconnect to a different spa do): the inventory is that of the tables now in force"""
+    from geckolib.const import GeckoConstants
+    from geckolib.automation.async_facade import GeckoAsyncFacade
+    pairs = [(("inxm", 9, 9), ("inyt", 63, 63)), (("inyt", 63, 63), ("inxm", 9, 9)), (("inyj", 62, 59), ("inxe", 61, 56))]
+    (pa, ca, la), (pb, cb, lb) = pairs[sx.choice("pair", len(pairs))]
+    flavour = ["async", "sync"][sx.choice("flavour", 2)]
+    if flavour == "async":
+        spa, tm = fe.async_spa(pa, ca, la, bytes(1024))
+    else:
+        spa = fe.SyncSpa(pa, ca, la, bytes(1024))
+    P, C, L = fe.tables(pb, cb, lb)
+    spa.config_class, spa.log_class = C(spa.struct), L(spa.struct)
+    if flavour == "async":
+        spa.pack_class = P(spa.struct)
+        spa.pack_type, spa.config_version, spa.log_version = spa.pack_class.type, cb, lb
+    spa.struct.build_accessors(spa.config_class, spa.log_class)
+    f = GeckoAsyncFacade(spa, tm) if flavour == "async" else fe.sync_facade(spa)
+    own = set(spa.config_class.accessors) | set(spa.log_class.accessors)
+    exp_s = [s_[0].upper() for s_ in GeckoConstants.SENSORS if s_[1] in own]
+    exp_bs = [s_[0].upper() for s_ in GeckoConstants.BINARY_SENSORS if s_[1] in own]
+    sx.check([s_.key for s_ in f.sensors] == exp_s, "inv.rebuilt.sensors", lambda: f"{[s_.key for s_ in f.sensors]} vs {exp_s}")
+    sx.check([s_.key for s_ in f.binary_sensors] == exp_bs, "inv.rebuilt.binary-sensors",
+             lambda: f"{[s_.key for s_ in f.binary_sensors]} vs {exp_bs}")
+    sx.check((f.eco_mode is not None) == ("EconActive" in own), "inv.rebuilt.eco-mode")
+    sx.check(set(spa.struct.accessors) == own, "inv.rebuilt.items-are-those-of-the-tables-in-force",
+             lambda: str(sorted(set(spa.struct.accessors) ^ own))[:200])
+
+
 def units(tier):
+    yield Unit("rebuilt-structure", rebuilt_structure, validate=False)
     k = 2 if tier == "quick" else 3
     for plat, c, l in selection(tier):
         for flavour in ("async", "sync"):
